@@ -234,6 +234,11 @@ def run(chk, prog):
             txt = str(hi)
             ok = hi is not None and (("size(%s.%s)" % (o["name"], base["member"]["name"])) in txt.replace(" ", "") or ("%s._nfreqs" % o["name"]) in txt or
                                      ("size(%s)" % o["name"]) in txt.replace(" ", ""))
+            if not ok and hi is not None and f.get("kind") == "ctor" and hi.is_Symbol:
+                # copy constructor: own size field initialised from the same field of the source object, which sizes the source's array
+                # by the class's own invariant (the same extent rule that covers `this->_data[i]`, i < _steps)
+                ini = [a_ for a_ in s.accesses if a_.kind == "store" and a_.idx is None and a_.base == str(hi)]
+                ok = len(ini) == 1 and ini[0].value is not None and str(ini[0].value).replace(" ", "") == "%s.%s" % (o["name"], str(hi)) and not ini[0].loops
             chk.check(ok, "R4", site, "%s: the loop over %s[%s] is bounded by that container's size (bound %s)" % (f["name"], A.show(base), L.name, hi),
                       "%s:foreign-subscript:%s:bound:%s" % (f["qname"], A.show(base), hi))
     chk.floor("R4-foreign-subscripts", n4, 1)
